@@ -122,6 +122,10 @@ func Classify(c Case) (bool, []string) {
 			if len(s.Decoy) > 0 {
 				set["decoy under another letter case"] = true
 			}
+			if len(s.Cross) > 0 {
+				set["same name sent in the other location (query vs form body)"] = true
+				nt = true
+			}
 			switch {
 			case len(vals) == 0:
 				set["text: absent"] = true
